@@ -45,6 +45,27 @@ pub struct Scn {
     /// rendezvous channel (sync_channel(0)) as in the shutdown example, else an unbounded one
     pub rendezvous: bool,
     pub conns: Vec<Conn>,
+    /// the application's connection condition: "" (default, admits everything) | "drain" (refuses
+    /// every connection once the application has been told to drain, which happens just before
+    /// the signal) | "limit" (admits as many connections as there are scripted clients, then none)
+    #[serde(default)]
+    pub condition: String,
+}
+
+/// Application state read by the connection conditions.
+#[derive(Default)]
+struct CState {
+    draining: std::sync::atomic::AtomicBool,
+    admitted: std::sync::atomic::AtomicUsize,
+    limit: usize,
+}
+
+fn cond_drain(_s: &mut humsim::net::TcpStream, st: Arc<CState>) -> bool {
+    !st.draining.load(std::sync::atomic::Ordering::SeqCst)
+}
+
+fn cond_limit(_s: &mut humsim::net::TcpStream, st: Arc<CState>) -> bool {
+    st.admitted.fetch_add(1, std::sync::atomic::Ordering::SeqCst) < st.limit
 }
 
 fn big() -> Vec<u8> {
@@ -75,7 +96,7 @@ impl Prop for C20 {
         }
     }
     fn rule(&self) -> &'static str {
-        "One case = an App with a shutdown receiver (unbounded or rendezvous channel), a pool of 1..8 threads, a bind address (127.0.0.1 / 0.0.0.0 / [::], with the strict-unspecified-address knob), 0..16 client connections each scripted to be in one of {just connected, idle keep-alive, half-sent request, handler running 5 ms / 2 s of virtual time, 150 KB response being written to a 512-byte-window reader, WebSocket open, plain request} when the signal is sent at a chosen virtual instant (before run is called, before the first connection, between or concurrently with connects, with the pool fully occupied), under one seeded schedule. Distinct = distinct (traffic-state multiset at the signal, pool size vs. connections, signal timing class, outcome); non-trivial = at least one connection open at the instant of the signal."
+        "One case = an App with a shutdown receiver (unbounded or rendezvous channel), a pool of 1..8 threads, a bind address (127.0.0.1 / 0.0.0.0 / [::], with the strict-unspecified-address knob), 0..16 client connections each scripted to be in one of {just connected, idle keep-alive, half-sent request, handler running 5 ms / 2 s of virtual time, 150 KB response being written to a 512-byte-window reader, WebSocket open, plain request} when the signal is sent at a chosen virtual instant (before run is called, before the first connection, between or concurrently with connects, with the pool fully occupied), under one seeded schedule; in two cases of five the application has a connection condition that refuses connections when the signal comes (drain mode switched on just before the signal, or a connection limit that the scripted clients have used up), so the server's own wake-up connection is not admitted either. Distinct = distinct (traffic-state multiset at the signal, pool size vs. connections, signal timing class, outcome); non-trivial = at least one connection open at the instant of the signal."
     }
     fn assumptions(&self) -> Vec<String> {
         vec![
@@ -86,7 +107,7 @@ impl Prop for C20 {
         ]
     }
     fn expected_counters(&self) -> Vec<&'static str> {
-        vec!["c20.signal_before_run", "c20.signal_before_first_connection", "c20.signal_with_open_connections", "c20.pool_fully_occupied", "c20.state.idle-keepalive", "c20.state.half-request", "c20.state.handler-long", "c20.state.slow-reader", "c20.state.websocket", "c20.state.connected", "c20.bind_unspecified", "c20.rendezvous_channel", "c20.rebinds"]
+        vec!["c20.signal_before_run", "c20.signal_before_first_connection", "c20.signal_with_open_connections", "c20.pool_fully_occupied", "c20.state.idle-keepalive", "c20.state.half-request", "c20.state.handler-long", "c20.state.slow-reader", "c20.state.websocket", "c20.state.connected", "c20.bind_unspecified", "c20.rendezvous_channel", "c20.connection_condition.drain", "c20.connection_condition.limit", "c20.rebinds"]
     }
     fn real_vs_stub(&self) -> (Vec<&'static str>, Vec<&'static str>) {
         (vec!["App::run (accept loop, AtomicBool flag, wake-up connect, unspecified_socket_to_loopback), ThreadPool::{stop, drop}, client_handler, websocket_handler"], vec!["threads, mpsc, atomics, TCP listener/backlog, virtual sleep in handlers (humsim)"])
@@ -118,7 +139,7 @@ impl Prop for C20 {
         sim.strict_unspecified = rng.chance(1, 3);
         sim.cpu_tick_max_ns = Some(1000);
         sim.max_decisions = 600_000;
-        serde_json::to_value(Scn { sim, threads: [1usize, 1, 2, 4, 8][rng.usize_below(5)], bind: ["127.0.0.1", "0.0.0.0", "[::]"][rng.usize_below(3)].into(), signal_ms, before_run: signal_ms == 0 && rng.chance(1, 2), rendezvous: rng.chance(1, 3), conns }).unwrap()
+        serde_json::to_value(Scn { sim, threads: [1usize, 1, 2, 4, 8][rng.usize_below(5)], bind: ["127.0.0.1", "0.0.0.0", "[::]"][rng.usize_below(3)].into(), signal_ms, before_run: signal_ms == 0 && rng.chance(1, 2), rendezvous: rng.chance(1, 3), conns, condition: ["", "", "", "drain", "limit"][rng.usize_below(5)].into() }).unwrap()
     }
 
     fn execute(&self, scenario: &Value) -> RunResult {
@@ -139,17 +160,18 @@ impl Prop for C20 {
         let (scn2, outs2, meta2) = (scn.clone(), outs.clone(), meta.clone());
         let outcome = sim::run(scn.sim.to_config(), move || {
             let scn = scn2;
-            let app: App<()> = App::new_with_config(scn.threads.clamp(1, 8), ())
-                .with_route("/ok", |_r: Request, _s: Arc<()>| Response::new(StatusCode::OK, "ok-body"))
-                .with_route("/slow", |r: Request, _s: Arc<()>| {
+            let cstate = CState { limit: scn.conns.len(), ..Default::default() };
+            let app: App<CState> = App::new_with_config(scn.threads.clamp(1, 8), cstate)
+                .with_route("/ok", |_r: Request, _s: Arc<CState>| Response::new(StatusCode::OK, "ok-body"))
+                .with_route("/slow", |r: Request, _s: Arc<CState>| {
                     let ms: u64 = r.query.strip_prefix("ms=").and_then(|v| v.parse().ok()).unwrap_or(5);
                     humsim::thread::sleep(Duration::from_millis(ms));
                     Response::new(StatusCode::OK, "slow-done")
                 })
-                .with_route("/big", |_r: Request, _s: Arc<()>| Response::new(StatusCode::OK, big()))
+                .with_route("/big", |_r: Request, _s: Arc<CState>| Response::new(StatusCode::OK, big()))
                 .with_websocket_route(
                     "/ws",
-                    websocket_handler(|mut ws: WebsocketStream, _s: Arc<()>| {
+                    websocket_handler(|mut ws: WebsocketStream, _s: Arc<CState>| {
                         while ws.recv().is_ok() {}
                     }),
                 );
@@ -166,6 +188,13 @@ impl Prop for C20 {
                 (Tx::A(t), r)
             };
             let app = app.with_shutdown(rx);
+            let app = match scn.condition.as_str() {
+                "drain" => app.with_connection_condition(cond_drain),
+                "limit" => app.with_connection_condition(cond_limit),
+                _ => app,
+            };
+            let drain_state = app.get_state();
+            let drains = scn.condition == "drain";
             // (the sender is handed back and kept alive until the scenario ends: a server must stop
             // because a signal was SENT, not because its sender went away afterwards)
             let send_signal = move |meta: &Arc<Mutex<(u64, Option<u64>, bool, Option<String>)>>| -> Tx {
@@ -188,6 +217,11 @@ impl Prop for C20 {
             let signaller = humsim::thread::spawn(move || {
                 if !before {
                     humsim::thread::sleep(Duration::from_millis(signal_ms));
+                }
+                if drains {
+                    // "stop taking new connections, then stop": the application is told to drain
+                    // immediately before the shutdown signal is sent
+                    drain_state.draining.store(true, std::sync::atomic::Ordering::SeqCst);
                 }
                 send_signal(&signaller_meta)
             });
@@ -318,6 +352,9 @@ impl Prop for C20 {
         }
         if scn.rendezvous {
             rr.count("c20.rendezvous_channel", 1);
+        }
+        if scn.condition == "drain" || scn.condition == "limit" {
+            rr.count(&format!("c20.connection_condition.{}", scn.condition), 1);
         }
         let open_at_signal: Vec<&Conn> = scn.conns.iter().filter(|c| c.at_ms < scn.signal_ms).collect();
         if open_at_signal.is_empty() {
